@@ -494,7 +494,7 @@ func runC07(c *Ctx) {
 	if c.Thorough() {
 		nGated, nFree = 600, 60
 	}
-	c.R.Rule = fmt.Sprintf("(A) %d gate-controlled schedules per backend instance: 2–4 client threads with programs of put/get/head/delete/list/upload-part/complete over 1–3 keys; exactly one thread runs at a time, from one lock-free micro-step boundary (after the body is read, after the metadata merge) to the next, the thread to advance drawn from the seed; the Lean model executes the same micro-steps (cbegin/cmerge/ccommit, atomic steps for the rest) in the same order and every answer — body, length, ETag, version id, metadata, listing — must agree, and agree with the reference model that applies each upload at its commit step; (B) %d free-running histories per instance with 2–16 clients incl. slow uploaders, checked for linearizability against a per-key register (porcupine) and for body/length/ETag agreement of every read; non-trivial = distinct schedule", nGated, nFree)
+	c.R.Rule = fmt.Sprintf("(A) %d gate-controlled schedules per backend instance: 2–4 client threads with programs of put/get/head/delete/list/upload-part/complete over 1–3 keys; exactly one thread runs at a time, from one lock-free micro-step boundary (after the body is read, after the metadata merge) to the next, the thread to advance drawn from the seed; the Lean model executes the same micro-steps (cbegin/cmerge/ccommit, atomic steps for the rest) in the same order and every answer — body, length, ETag, version id, metadata, listing — must agree, and agree with the reference model that applies each upload at its commit step; (C) CompleteMultipartUpload parked inside the backend's PutObject while part uploads, ListParts and abort on the same upload are started, then released: every request must be answered (lock-order inversions show as requests that never return) and a completed object is the listed part; (B) %d free-running histories per instance with 2–16 clients incl. slow uploaders, checked for linearizability against a per-key register (porcupine) and for body/length/ETag agreement of every read; non-trivial = distinct schedule", nGated, nFree)
 	for _, kind := range c.kinds(impl.AllKinds) {
 		for i := 0; i < nGated; i++ {
 			c07Gated(c, kind, 2+c.Rng.Intn(3), 2+c.Rng.Intn(4))
@@ -502,5 +502,115 @@ func runC07(c *Ctx) {
 		for i := 0; i < nFree; i++ {
 			c07Free(c, kind, 2+c.Rng.Intn(15), 4+c.Rng.Intn(6))
 		}
+		for i := 0; i < 3; i++ {
+			c07Blocked(c, kind, i)
+		}
 	}
+}
+
+// (C) requests that must wait: CompleteMultipartUpload is parked inside the backend's PutObject
+// (at the first gate there) while other multipart requests on the same upload are started; they
+// may block until the complete goes on, but once it does everything must be answered — a lock
+// order inversion between the uploader's locks shows as requests that never return.
+func c07Blocked(c *Ctx, kind string, variant int) {
+	inst, err := impl.New(kind, c.Tmp)
+	if err != nil {
+		return
+	}
+	defer inst.Close()
+	r := &Runner{c: c, inst: inst}
+	bucket := impl.SingleBucketName
+	if !inst.IsSingle() {
+		inst.Do(impl.Req{Method: "PUT", Path: "/" + bucket})
+	}
+	_, _, id := r.MpInit(bucket, "blk", nil)
+	if id == "" {
+		return
+	}
+	p1 := []byte("first-part-body")
+	r.MpPart(bucket, "blk", id, "1", p1, "", nil)
+	parked := make(chan string, 1)
+	release := make(chan struct{})
+	var once sync.Once
+	gofakes3.VerifSetGate(func(name string) {
+		if strings.Contains(name, ".PutObject.") {
+			first := false
+			once.Do(func() { first = true })
+			if first {
+				parked <- name
+				<-release
+			}
+		}
+	})
+	defer gofakes3.VerifSetGate(nil)
+	type res struct{ who, obs string }
+	done := make(chan res, 8)
+	go func() {
+		_, o := r.MpComplete(bucket, "blk", id, []cpart{{1, etagOf(p1)}})
+		done <- res{"complete", o}
+	}()
+	desc := []string{"backend " + kind, "initiate; upload part 1; CompleteMultipartUpload parked inside PutObject"}
+	select {
+	case g := <-parked:
+		desc = append(desc, "parked at "+g)
+	case rr := <-done:
+		// no gate inside this backend's PutObject was reached: nothing to test
+		_ = rr
+		return
+	case <-time.After(10 * time.Second):
+		c.mismatch(Mismatch{Kind: "spec", Backend: kind, Case: desc, Impl: "CompleteMultipartUpload neither reached PutObject nor answered within 10 s", Spec: "an answer", Finger: "c07:blocked:hang"})
+		close(release)
+		return
+	}
+	n := 1
+	others := [][]string{{"part"}, {"part", "parts"}, {"part", "abort", "parts"}}[variant%3]
+	for _, w := range others {
+		n++
+		go func(w string) {
+			var o string
+			switch w {
+			case "part":
+				_, o = r.MpPart(bucket, "blk", id, "2", []byte("second"), "", nil)
+			case "parts":
+				_, po := r.MpParts(bucket, "blk", id, "", "", 0, 1000)
+				o = po.Obs
+			case "abort":
+				_, o = r.MpAbort(bucket, "blk", id)
+			}
+			done <- res{w, o}
+		}(w)
+	}
+	desc = append(desc, "started meanwhile: "+strings.Join(others, ", ")+"; then the complete is released")
+	time.Sleep(300 * time.Millisecond)
+	close(release)
+	got := map[string]string{}
+	deadline := time.After(15 * time.Second)
+	for len(got) < n {
+		select {
+		case rr := <-done:
+			got[rr.who] = rr.obs
+		case <-deadline:
+			c.R.Evaluations++
+			c.mismatch(Mismatch{Kind: "spec", Backend: kind, Case: desc, Impl: fmt.Sprintf("after 15 s only %v were answered", got), Spec: "every request is answered", Finger: "c07:blocked:hang"})
+			return
+		}
+	}
+	c.R.Evaluations++
+	for w, o := range got {
+		if o == "hang" || o == "panic" {
+			c.mismatch(Mismatch{Kind: "spec", Backend: kind, Case: desc, Impl: w + ": " + o, Spec: "every request is answered", Finger: "c07:blocked:hang"})
+			return
+		}
+	}
+	// whatever the order, the object a successful complete stored is exactly part 1
+	if strings.HasPrefix(got["complete"], "completed") {
+		_, g := r.Get(bucket, "blk")
+		if !strings.HasPrefix(g, "obj "+drv.Hex(p1)+" ") {
+			c.mismatch(Mismatch{Kind: "spec", Backend: kind, Case: desc, Impl: trunc(g, 120), Spec: "the completed object is the listed part", Finger: "c07:blocked:object"})
+		}
+	} else if !strings.HasPrefix(got["complete"], "err NoSuchUpload") {
+		c.mismatch(Mismatch{Kind: "spec", Backend: kind, Case: desc, Impl: "complete: " + got["complete"], Spec: "completed, or NoSuchUpload when an abort came first", Finger: "c07:blocked:complete"})
+	}
+	c.nontrivial(fmt.Sprintf("blocked|%s|%d", kind, variant))
+	c.hist("blocked-requests:" + kind)
 }
